@@ -59,9 +59,63 @@ def h_literal(ctx):
     ctx.cover('literal.returns')
 
 
+def h_matched_description(ctx):
+    """_matched_description(txn, raw, transforms): the text the rules are matched against - the raw description put through the file's transforms in the
+    transaction context normalize_merchant builds (description, amount, custom fields, source, location, date); without transforms the raw text itself"""
+    sp = Spec()
+    I = Interp(ctx, sp)
+    raw = ctx.fresh('raw_description', StrS)
+    has_tr = bool(ctx.choose(2, 'file_has_transforms'))
+    amount = ctx.fresh('amount', z3.RealSort())
+    source, location = ctx.fresh('source', StrS), ctx.fresh('location', StrS)
+    has_field = bool(ctx.choose(2, 'custom_fields'))
+    fld = {'memo': ctx.fresh('memo', StrS)} if has_field else None
+    txn = {'raw_description': raw, 'description': ctx.fresh('merchant_name', StrS), 'amount': amount, 'field': fld, 'source': source, 'location': location, 'date': None}
+    seen = {}
+    out = ctx.fresh('transformed_description', StrS)
+    ctx.assume(z3.Length(out) > 0)
+
+    def m_apply(I_, a, k, n):
+        seen['probe'] = dict(a[0]) if isinstance(a[0], dict) else a[0]
+        seen['transforms'] = a[1]
+        a[0]['description'] = out
+        return a[0]
+    sp.models['apply_transforms'] = Func(m_apply)
+    sp.models['dict'] = Func(lambda I_, a, k, n: dict(a[0]) if a and isinstance(a[0], dict) else {})
+    transforms = [('field.description', 'x')] if has_tr else []
+    r = I.call_function(find_function(D + '_matched_description'), [txn, raw, transforms])
+    if not has_tr:
+        ctx.check('C19.matched_description.is_the_raw_text_without_transforms', to_z3(r, StrS) == raw, 'property')
+    else:
+        pr = seen.get('probe')
+        ok = isinstance(pr, dict) and seen.get('transforms') is transforms
+        ctx.check('C19.matched_description.transforms_of_the_file_are_applied', ok, 'property')
+        if ok:
+            ctx.check('C19.matched_description.transforms_see_the_raw_description', z3.is_expr(pr.get('description')) and pr['description'] is raw or to_z3(pr.get('description'), StrS) == raw, 'property')
+            same_ctx = pr.get('source') is source and pr.get('location') is location and \
+                ((pr.get('field') is None) if fld is None else (isinstance(pr.get('field'), dict) and pr['field'] == fld and pr['field'] is not fld))
+            ctx.check('C19.matched_description.transforms_see_the_transaction_context_without_changing_the_transaction', same_ctx, 'property')
+            ctx.check('C19.matched_description.transforms_see_the_amount', to_z3(pr.get('amount'), z3.RealSort()) == amount, 'property')
+        ctx.check('C19.matched_description.is_the_transformed_description', to_z3(r, StrS) == out, 'property')
+    ctx.cover('_matched_description.returns')
+
+
+def structural(tier, res):
+    """every pattern that cmd_discover suggests is built from _matched_description(...) - never from the raw description"""
+    from pyvc import frames
+    fi = find_function(D + 'cmd_discover')
+    calls = [n for n in ast.walk(fi.node) if isinstance(n, ast.Call) and isinstance(n.func, ast.Name) and n.func.id == 'suggest_pattern']
+    bad = [ast.unparse(c) for c in calls if not (len(c.args) == 1 and isinstance(c.args[0], ast.Call) and isinstance(c.args[0].func, ast.Name)
+                                                  and c.args[0].func.id == '_matched_description')]
+    ok = bool(calls) and not bad
+    return [frames.Clause(fi.qualname + '#patterns_are_suggested_from_the_matched_description', ok,
+                          '%d suggest_pattern call(s), all on _matched_description(...)' % len(calls) if ok else 'suggest_pattern called on something else: %s' % (bad or 'no call found'), kind='auxiliary')]
+
+
 def harnesses(tier):
     return [Harness('suggest_merchants_rule', h_rule_text, [D + 'suggest_merchants_rule']),
-            Harness('suggest_match_expr.literal', h_literal, [D + 'suggest_match_expr'])]
+            Harness('suggest_match_expr.literal', h_literal, [D + 'suggest_match_expr']),
+            Harness('_matched_description', h_matched_description, [D + '_matched_description'])]
 
 
 ORACLES = [
